@@ -535,6 +535,56 @@ fn main() {
             run::<VmFunction>(&mut w, &mut id, "vm", &b, depth, if threads == 0 { -1 } else { 0 }, w2m, scale, &wdesc, moved, &json!({"kind": "shape", "model_ntri": -1, "model_manifold": true}));
         }
     }
+
+    // directed families (round 5 of the seeded changes): (A) the same solid written as a steep or a shallow field (the
+    // field times 1e6, 1e5, 1e-4: the surface, and so the mesh, must not depend on it); (B) world-to-model rotations by
+    // more than a right angle about an axis in general position (a proper rotation with negative diagonal entries);
+    // (C) solids whose surface passes one or two float steps outside lattice points of the first octree levels
+    {
+        use fidget_core::context::Tree;
+        let mk = |name: &str, f: &dyn Fn(&mut Context) -> Node| -> Built { let mut ctx = Context::new(); let root = f(&mut ctx); Built { ctx, root, desc: name.to_string() } };
+        let solids: Vec<Built> = vec![
+            mk("sphere 0.6", &|c| shapes::sphere(c, [0.03, -0.02, 0.05], 0.6)),
+            mk("box 0.47", &|c| shapes::box3(c, [-0.47, -0.41, -0.33], [0.47, 0.52, 0.39])),
+            cylinder(0.35, -0.43, 0.41, 0.0, 0.0),
+            cone(0.413, 0.7, -0.37),
+        ];
+        let nd = if quick { 4 } else { 5 };
+        for (k, b0) in solids.iter().enumerate() {
+            for (q, c) in [1.0e6f32, 1.0e5, 1.0e-4].iter().enumerate() {
+                if quick && (k + q) % 2 == 1 { continue; }
+                let mut b = Built { ctx: Context::new(), root: b0.root, desc: format!("{} field x {c:e}", b0.desc) };
+                let t = b0.ctx.export(b0.root).unwrap();
+                b.root = b.ctx.import(&(t * *c));
+                let kind = json!({"kind": "shape", "model_ntri": -1, "model_manifold": true});
+                if (k + q) % 2 == 0 { run::<VmFunction>(&mut w, &mut id, "vm", &b, nd, [0i64, 3][q % 2], Matrix4::identity(), 1.0, "identity", Vector3::zeros(), &kind); }
+                else { run::<JitFunction>(&mut w, &mut id, "jit", &b, nd, [0i64, 3][q % 2], Matrix4::identity(), 1.0, "identity", Vector3::zeros(), &kind); }
+            }
+            for (q, (axis, ang)) in [(Vector3::new(0.8f32, 0.6, 0.0), 2.0943951f32), (Vector3::new(0.3, -0.5, 0.8), 2.6), (Vector3::new(0.0, 0.6, 0.8), 3.0), (Vector3::new(1.0, 1.0, 1.0), 2.0943951)].iter().enumerate() {
+                if quick && (k + q) % 2 == 0 { continue; }
+                let rot = nalgebra::Rotation3::from_axis_angle(&nalgebra::Unit::new_normalize(*axis), *ang).to_homogeneous();
+                let s = 1.2f32;
+                let w2m = rot * Matrix4::new_scaling(s);
+                let kind = json!({"kind": "shape", "model_ntri": -1, "model_manifold": true});
+                let wdesc = format!("scale {s} rotate {ang} about {:?}", [axis.x, axis.y, axis.z]);
+                if (k + q) % 2 == 0 { run::<JitFunction>(&mut w, &mut id, "jit", b0, nd, 0, w2m, s, &wdesc, Vector3::zeros(), &kind); }
+                else { run::<VmFunction>(&mut w, &mut id, "vm", b0, nd, [0i64, 3][q % 2], w2m, s, &wdesc, Vector3::zeros(), &kind); }
+            }
+        }
+        for (q, hw) in [0.50000006f32, 0.5000001, 0.25000003, 0.7500001, 0.49999997].iter().enumerate() {
+            let bx = mk(&format!("box half-width {hw:?}"), &|c| shapes::box3(c, [-*hw, -*hw, -*hw], [*hw, *hw, *hw]));
+            let sp = mk(&format!("sphere radius {hw:?}"), &|c| shapes::sphere(c, [0.0, 0.0, 0.0], *hw));
+            let kind = json!({"kind": "shape", "model_ntri": -1, "model_manifold": true});
+            for (j, b) in [bx, sp].iter().enumerate() {
+                for depth in [3u8, 4] {
+                    if quick && (q + j + depth as usize) % 2 == 1 { continue; }
+                    if (q + j) % 2 == 0 { run::<VmFunction>(&mut w, &mut id, "vm", b, depth, [0i64, 3][q % 2], Matrix4::identity(), 1.0, "identity", Vector3::zeros(), &kind); }
+                    else { run::<JitFunction>(&mut w, &mut id, "jit", b, depth, 0, Matrix4::identity(), 1.0, "identity", Vector3::zeros(), &kind); }
+                }
+            }
+        }
+        let _ = Tree::x();
+    }
     w.flush().unwrap();
     eprintln!("c08: {id} meshes");
 }
